@@ -4,7 +4,7 @@ from fractions import Fraction
 
 import z3
 
-from .values import (HArr, HArr2, HList, HObj, HStruct, Ref, SliceV, Unsupported, SpecError, Func, Prim, Module,
+from .values import (HViewList, HArr, HArr2, HList, HObj, HStruct, Ref, SliceV, Unsupported, SpecError, Func, Prim, Module,
                      ClassV, ExcClass, ExcValue, Bound, Opaque, SpecLambda, UNDEF, to_z3, truth, zand, zor, znot,
                      zimplies, kind_of, is_sym, as_const, py_floordiv, py_mod, SORTS)
 
@@ -95,7 +95,8 @@ class ExprMixin:
     SPEC_BUILTINS = {"old", "implies", "org", "prov", "upd", "permutation", "is_sorted", "forall", "exists", "ite",
                      "real", "unit", "fresh", "same_object", "shares_buffer", "defined", "is_none", "count_true",
                      "SUM", "sqrt", "field", "arr_eq", "abs_", "floor", "is_int", "shape0", "shape1", "nfields",
-                     "isarray", "ufn", "trunc", "apply", "pairs_kept"}
+                     "isarray", "ufn", "trunc", "apply", "pairs_kept", "nyielded", "consumed", "nitems", "item",
+                     "yields_items_of", "mapped", "induct", "assume_axiom", "chunk_off", "defined_len"}
 
     def builtin(self, name):
         if name in EXC_NAMES:
@@ -189,6 +190,8 @@ class ExprMixin:
             return a + b
         if isinstance(a, str) and opn == "Mod":
             return Opaque("formatted-string")
+        if opn == "Mult" and (isinstance(a, (str, Opaque)) or isinstance(b, (str, Opaque))):
+            return Opaque("repeated-string")
         if isinstance(a, tuple) and isinstance(b, tuple) and opn == "Add":
             return a + b
         if isinstance(a, Opaque) or isinstance(b, Opaque):
@@ -614,7 +617,7 @@ class ExprMixin:
                 raise Unsupported("attribute %s of %s" % (attr, h.cls), node)
             if isinstance(h, (HArr, HArr2, HStruct)):
                 return self.arr_attr(v, h, attr, st, fr, node)
-            if isinstance(h, HList):
+            if isinstance(h, (HList, HViewList)):
                 return Bound(v, Prim("list." + attr))
         if isinstance(v, Prim):
             return Prim(v.name + "." + attr)
@@ -731,6 +734,11 @@ class ExprMixin:
                 raise Unsupported("symbolic dict key", node)
             if isinstance(h, HStruct):
                 return self.struct_subscript(base, h, idx, st, fr, node)
+            if isinstance(h, HViewList):
+                j = self.index_ok(st, h.n, idx, fr, node)
+                hb = st.get(h.base)
+                return st.alloc(HArr(hb.kind, h.ln[to_z3(j, "int")], None, base=(h.base, h.off[to_z3(j, "int")], 1),
+                                     fresh=hb.fresh))
             if isinstance(h, (HArr, HArr2)):
                 return self.arr_subscript(base, h, idx, st, fr, node)
         if isinstance(base, dict):
